@@ -231,6 +231,22 @@ def extra_checks(ctx, e, A, M):
                 if np.abs(cs - 1.0).max() > 1e-9:
                     ctx.violation(cls, "total mass is not conserved in a view although the detector covers the shadow",
                                   {**key, "view": v}, expected="column sums 1", observed=cs.tolist(), oracle="xray_mass_conservation")
+        if c.get("dx") == 1.0 and list(angles) == [0.0, np.pi / 2] and ndet is not None \
+                and (ndet - shp[0]) % 2 == 0 and (ndet - shp[1]) % 2 == 0 and ndet >= max(shp):
+            # documented special case: with unit pixels aligned to the (centred) detector bins the
+            # view at angle 0 is the vector of sums over axis 1 and the view at pi/2 the sums over
+            # axis 0, each zero-padded symmetrically to the detector length
+            n = int(np.prod(shp))
+            ref = np.zeros((2 * ndet, n))
+            for k in range(n):
+                i, j = divmod(k, shp[1])
+                ref[(ndet - shp[0]) // 2 + i, k] = 1.0
+                ref[ndet + (ndet - shp[1]) // 2 + j, k] = 1.0
+            if np.abs(ref - M).max() > 1e-9:
+                r, k = np.unravel_index(np.argmax(np.abs(ref - M)), M.shape)
+                ctx.violation(cls, "projection at angles 0 / pi/2 is not the (centred) row / column sums",
+                              {**key, "entry": [int(r), int(k)]}, expected=float(ref[r, k]), observed=float(M[r, k]),
+                              oracle="documented special case (unit pixels, aligned detector)")
         # model with the implementation's own bin indices / weights (scatter logic)
         return "xray"
     if cls == "AbelTransform":
